@@ -274,7 +274,7 @@ def rules(chk, db, want, prefix=''):
         if 'TL' in want:
             for f in pick(fns, 'ReadEntries')[:1]:
                 where = facts.site(f) + ' <%s>' % short
-                ok, msg = encrules.loop_bound(f, Poly.atom('p:count'))
+                ok, msg = encrules.loop_bound(f, Poly.atom('p:count'), None, db=db)
                 why = [] if ok else [msg.replace("d:", "")]
                 if not ok:
                     # the bound is the *parameter* count
